@@ -907,14 +907,15 @@ func TestVerifC15(t *testing.T) {
 // `qt.quotaHierarchyInfo[quotaInfo.Name] = make(...)` unconditionally, i.e. it REPLACES the root's child
 // set.  Oracle of this stream (one clause of "children map = inverse of the parent links"): every
 // recorded quota whose parent is the root is listed among the root's children.
-// Off unless VERIF_C15_ROOTADD=1 (the unchanged code fails it; main decides fix vs. known finding).
+// The pinned code failed it (49/60 cases); repaired by the fix: commit f812ecb (child set created only when absent).
+// On by default; VERIF_C15_ROOTADD=0 switches the stream off.
 func TestVerifC15RootAdd(t *testing.T) {
 	h := vOpen("C15")
 	if h == nil {
 		t.Skip("VERIF_OUT not set")
 	}
 	n := h.N(60, 600)
-	if os.Getenv("VERIF_C15_ROOTADD") != "1" {
+	if os.Getenv("VERIF_C15_ROOTADD") == "0" {
 		n = 0
 	}
 	none := [c15Dims]int64{c15Absent, c15Absent, c15Absent}
@@ -1014,6 +1015,6 @@ func TestVerifC15RootAdd(t *testing.T) {
 		}
 		h.End()
 	}
-	h.Close("root-add stream (VERIF_C15_ROOTADD=1 only): 0-3 quotas under the root (+ grandchild), then a create request NAMED koordinator-root-quota " +
+	h.Close("root-add stream: 0-3 quotas under the root (+ grandchild), then a create request NAMED koordinator-root-quota " +
 		"(parent label \"\" as the scheduler writes it / root / an existing quota), then more creates; non-trivial = root object accepted with >=1 quota already under the root")
 }
